@@ -47,6 +47,33 @@ def make_filter(c, var):
     return f, (lambda vals: np.asarray(vals[var])[:, 0] >= c - 1e-6), src
 
 
+def filter_threshold(a, row):
+    """first-coordinate threshold that leaves positive measure of the denoted set at parameter row `row`: the median
+    first coordinate of the reference members on a lattice over the (conservative) reference box; the box centre is
+    only used for primitives and where no lattice point is a member (the box of a cut or an intersection is not tight)"""
+    one = vals_of_theta(row, 1)
+    box = G.ref_box(a, one)[0]
+    centre = float(box[0].mean())
+    s = a["a"] if a["k"] == "boundary" else a
+    sv = G.space_vars(s)
+    dim = sum(d for _, d in sv)
+    if s["k"] in G.PRIMS or not G.is_solid(s) or dim > 3:
+        return centre
+    sbox = G.ref_box(s, one)[0]
+    m = {1: 400, 2: 60, 3: 24}[dim]
+    axes = [sbox[i, 0] + (np.arange(m) + 0.5) / m * (sbox[i, 1] - sbox[i, 0]) for i in range(dim)]
+    grid = np.stack(np.meshgrid(*axes, indexing="ij"), -1).reshape(-1, dim)
+    vals = vals_of_theta(row, len(grid))
+    c = 0
+    for v, d in sv:
+        vals[v] = grid[:, c:c + d]
+        c += d
+    inside = G.sdf(s, vals) <= 0
+    if inside.sum() < 8:
+        return centre
+    return float(np.median(grid[inside, 0]))
+
+
 class Ctx:
     pass
 
@@ -247,9 +274,9 @@ def run_item(item):
         for batch in batches:
             k = len(batch[fv[0]]) if fv else 0
             prm = prm_of(batch)
-            # half-plane filter through the centre of the left-most row's box: positive measure for every row
+            # half-plane filter through the left-most median first coordinate of the rows: positive measure for every row
             rows = [dict((v, batch[v][i]) for v in fv) for i in range(k)] if fv else [{}]
-            c0 = min(float(G.ref_box(a, vals_of_theta(r, 1))[0][0].mean()) for r in rows)
+            c0 = min(filter_threshold(a, r) for r in rows)
             filt, filt_ref, filt_src = make_filter(c0, G.space_vars(a)[0][0])
 
             def fcheck(o, filt_ref=filt_ref, filt_src=filt_src):
